@@ -327,7 +327,11 @@ def gen_doc(rng, tree, depth=0):
             continue                       # absent
         if node["sub"] and r < 0.8:
             c = rng.random()
-            if c < 0.55:
+            if c < 0.08:
+                v = {}                                   # empty nested object
+            elif c < 0.14:
+                v = {"zz_extra": pick(rng, [1, "foo", None])}   # only unaddressed keys
+            elif c < 0.55:
                 v = gen_doc(rng, node["sub"], depth + 1)
             elif c < 0.85:
                 v = [gen_doc(rng, node["sub"], depth + 1) if rng.random() < 0.8 else pick(rng, [1, "foo", None])
